@@ -1169,4 +1169,226 @@ example : exInstrs.foldlM FlowMod.addInstruction (FlowMod.new 7) = .ok exFlowMod
           · exact ⟨actionWF_group 3, known_group 3⟩) h
   exact ⟨_, hw⟩
 
+/-! ### match fields and the match through the real walker -/
+
+theorem shl8_fieldByte : ∀ f : Fin 128, (shl8 (n8 f.val) 1).toNat = 2 * f.val ∧ (shl8 (n8 f.val) 1 ||| 1).toNat = 2 * f.val + 1 := by
+  decide
+
+/-- the subtree the walker builds for the OXM TLV `b` -/
+def oxmTree (b : Bytes) : Tree :=
+  match walkOxm b with
+  | .ok (t, _) => t
+  | .error _ => .node "rejected" b []
+
+theorem oxmTree_of_accept (b : Bytes) (t : Tree) (h : OxmAccept b t) : OxmAccept b (oxmTree b) := by
+  have := h.2 []
+  rw [List.append_nil] at this
+  have e : oxmTree b = t := by unfold oxmTree; rw [this]
+  rw [e]; exact h
+
+/-- MATCH FIELDS FOR WHICH ACCEPTANCE BY THE REAL WALKER IS PROVED — generically over the walker's table: any
+    non-experimenter (class, field) the table knows with a fixed width `w` (everything but tun_metadata: in_port,
+    eth_type, eth_dst/src, vlan_vid, ip_proto, ipv4/ipv6 addresses, ports, reg0..15, ct_state/zone/mark/label, …), no
+    experimenter id, a value payload of exactly `w` bytes, optionally a mask payload of `w` bytes, and the stored Length
+    `w` (`2·w` with a mask) — what the constructors of match.go / nx_match.go store -/
+def FieldKnown (v : V) : Prop :=
+  ∃ c f hm ln val mask lv w, v = .obj "MatchField" [.num c, .num f, .num hm, .num ln, .num 0, val, mask] ∧
+    c < 65535 ∧ f < 128 ∧ oxmLegalWidth c f = some w ∧ ¬ (c = 1 ∧ 40 ≤ f ∧ f ≤ 103) ∧
+    MatchPayload.lenM val = .ok (lv, val) ∧ lv.toNat = w ∧
+    (hm = 0 ∨ hm ≠ 0 ∧ MatchPayload.lenM mask = .ok (lv, mask)) ∧ ln = (if hm = 0 then w else 2 * w) ∧ ln < 256
+
+/-- ACCEPTANCE of a match field: the real walker's `walkOxm` accepts the encoding of EVERY known field (any payload
+    bytes), whatever follows it, consuming exactly its bytes -/
+theorem matchField_accept (v : V) (hk : FieldKnown v) (bs : Bytes) (v2 : V) (h : MatchField.marshalM v = .ok (bs, v2)) :
+    OxmAccept bs (oxmTree bs) := by
+  obtain ⟨c, f, hm, ln, val, mask, lv, w, rfl, hc, hf, hw, hnv, hlv, hlw, hmk, hln, hlt⟩ := hk
+  obtain ⟨c', f', hm', ln', eid', val', mask', heq, a0, a3, a2, lv', lm', hlv', hlm', hsz⟩ := matchField_wire _ bs v2 h
+  cases heq
+  rw [hlv] at hlv'
+  cases hlv'
+  obtain ⟨s0, s1⟩ := shl8_fieldByte ⟨f, hf⟩
+  simp only at s0 s1
+  simp only [if_true] at hsz
+  rw [Nat.mod_eq_of_lt (by omega)] at a0
+  rw [Nat.mod_eq_of_lt hlt] at a3
+  by_cases hm0 : hm = 0
+  · have elm : lm'.toNat = 0 := by
+      rcases hlm' with ⟨_, rfl⟩ | ⟨h1, _⟩
+      · rfl
+      · exact absurd hm0 h1
+    rw [if_pos hm0, s0] at a2
+    rw [if_pos hm0] at hln
+    have hlen : bs.length = 4 + ln := by omega
+    refine oxmTree_of_accept _ _ ⟨by omega, fun tail => walkOxm_accept bs tail c (2 * f) ln w hlen ?_ ?_ ?_ (by omega) ?_ ?_ ?_⟩
+    · rw [u16At_eq_beAt _ _ (by omega), a0]
+    · rw [u8At_eq_beAt _ _ (by omega), a2]
+    · rw [u8At_eq_beAt _ _ (by omega), a3]
+    · rw [Nat.mul_div_cancel_left f (by decide)]; exact hw
+    · rw [Nat.mul_div_cancel_left f (by decide)]; exact hnv
+    · have : 2 * f % 2 = 0 := by omega
+      rw [this]; simpa using hln
+  · have elm : lm' = lv := by
+      rcases hlm' with ⟨h0, _⟩ | ⟨_, hm1'⟩
+      · exact absurd h0 hm0
+      · rcases hmk with h0 | ⟨_, hm1⟩
+        · exact absurd h0 hm0
+        · rw [hm1] at hm1'; cases hm1'; rfl
+    subst elm
+    rw [if_neg hm0, s1] at a2
+    rw [if_neg hm0] at hln
+    have hlen : bs.length = 4 + ln := by omega
+    have hd : (2 * f + 1) / 2 = f := by omega
+    refine oxmTree_of_accept _ _ ⟨by omega, fun tail => walkOxm_accept bs tail c (2 * f + 1) ln w hlen ?_ ?_ ?_ (by omega) ?_ ?_ ?_⟩
+    · rw [u16At_eq_beAt _ _ (by omega), a0]
+    · rw [u8At_eq_beAt _ _ (by omega), a2]
+    · rw [u8At_eq_beAt _ _ (by omega), a3]
+    · rw [hd]; exact hw
+    · rw [hd]; exact hnv
+    · have : (2 * f + 1) % 2 = 1 := by omega
+      rw [this]; simpa using hln
+
+/-- ACCEPTANCE of a match: a match as NewMatch() + any AddField history leaves it (`C02.MatchWF`) whose fields are all
+    known, with at most 65 524 field bytes: `Spec.walkMatch` accepts the encoding `Match.marshalM` produces — the
+    library's own length word and zero padding — whatever follows, consumes exactly its bytes and returns one subtree per
+    field, in order -/
+theorem match_accept (m : V) (hwf : C02.MatchWF m) (hk : ∀ fs, m.fields[2]? = some (.list fs) → ∀ f ∈ fs, FieldKnown f)
+    (mb : Bytes) (m' : V) (h : Match.marshalM m = .ok (mb, m')) (hne : mb.length ≠ 0)
+    (hfit : ∀ fs bss fs', m.fields[2]? = some (.list fs) → mapM2 MatchField.marshalM fs = .ok (bss, fs') →
+      4 + bss.flatten.length ≤ 65528) :
+    ∃ fbs : List Bytes, (∀ fs, m.fields[2]? = some (.list fs) → fbs.length = fs.length) ∧
+      ∀ tail, walkMatch (mb ++ tail) = .ok (.node "match" mb (fbs.map oxmTree), mb.length) := by
+  obtain ⟨fs, bss, fs', hf, hmm, a0, a2, hrest⟩ := match_ok m hwf mb m' h hne
+  have hsm := hfit fs bss fs' hf hmm
+  have e2 : beAt mb 2 2 = 4 + bss.flatten.length := by
+    rcases a2 with e | e
+    · exact e
+    · omega
+  obtain ⟨hl, hfl, hz⟩ := hrest hsm
+  rw [e2] at hl hz
+  have h8 : 8 ≤ mb.length := by rw [hl]; unfold Spec.round8; omega
+  have hacc : ∀ b ∈ bss, OxmAccept b (oxmTree b) := by
+    intro b hb
+    obtain ⟨x, hx, y, hxy⟩ := mapM2_mem_bytes _ _ _ _ hmm b hb
+    exact matchField_accept x (hk fs hf x hx) b y hxy
+  refine ⟨bss, fun fs2 hf2 => ?_, fun tail => ?_⟩
+  · rw [hf] at hf2; cases hf2
+    exact (mapM2_length _ _ _ _ hmm).1
+  · refine walkMatch_accept oxmTree mb tail bss (4 + bss.flatten.length) ?_ ?_ rfl hl ?_ ?_ hacc
+    · rw [u16At_eq_beAt _ _ (by omega), a0]; rfl
+    · rw [u16At_eq_beAt _ _ (by omega), e2]
+    · unfold slice
+      rw [Nat.add_sub_cancel_left]; exact hfl
+    · rw [hz]; exact (allZero_iff _).mpr (allZero_zeros _)
+
+/-- WALK of a whole FlowMod by the TOP-LEVEL specification walker, with the match instantiated: version 4, type 14, any
+    command 0..4, ANY match built by NewMatch() + AddField of known fields, ANY list of known instructions, total below
+    64 KiB: `Spec.walk` accepts, and its tree is the message node whose first child is the match (one grandchild per
+    field) followed by one child per instruction -/
+theorem flowMod_topWalk_known (ln : V) (xid ck cm tid cmd it ht pr bid op og fl : Nat) (pad m : V) (is : List V)
+    (bs : Bytes) (v2 : V) (hcmd : cmd ≤ 4) (hlt : bs.length < 65536) (hwf : C02.MatchWF m)
+    (hkf : ∀ fs, m.fields[2]? = some (.list fs) → ∀ f ∈ fs, FieldKnown f)
+    (hfit : ∀ fs bss fs', m.fields[2]? = some (.list fs) → mapM2 MatchField.marshalM fs = .ok (bss, fs') →
+      4 + bss.flatten.length ≤ 65528)
+    (hne : ∀ mb m', Match.marshalM m = .ok (mb, m') → mb.length ≠ 0)
+    (hk : ∀ ls is1, mapM2 Instruction.lenM is = .ok (ls, is1) → ∀ i ∈ is1, InstrKnown i)
+    (h : FlowMod.marshalM (.obj "FlowMod" [.obj "Header" [.num 4, .num 14, ln, .num xid], .num ck, .num cm, .num tid,
+      .num cmd, .num it, .num ht, .num pr, .num bid, .num op, .num og, .num fl, pad, m, .list is]) = .ok (bs, v2)) :
+    ∃ (mb : Bytes) (fbs ibs : List Bytes),
+      Spec.walk bs = .ok (.node "msg 14" bs (.node "match" mb (fbs.map oxmTree) :: ibs.map instrTree)) ∧
+      (∀ fs, m.fields[2]? = some (.list fs) → fbs.length = fs.length) ∧
+      ((cmd = Gen.openflow13.FC_DELETE ∨ cmd = Gen.openflow13.FC_DELETE_STRICT) ∧ ibs = [] ∨
+       ¬(cmd = Gen.openflow13.FC_DELETE ∨ cmd = Gen.openflow13.FC_DELETE_STRICT) ∧ ibs.length = is.length) := by
+  obtain ⟨_, _, _, mb, m', _, _, _, hmm, _, _⟩ := flowMod_embeds2 _ ck cm tid cmd it ht pr bid op og fl pad m is bs v2 h
+  obtain ⟨fbs, hcnt, hw⟩ := match_accept m hwf hkf mb m' hmm (hne mb m' hmm) hfit
+  obtain ⟨ibs, hwalk, hcs⟩ := flowMod_topWalk ln xid ck cm tid cmd it ht pr bid op og fl pad m is bs v2 hcmd hlt
+    (.node "match" mb (fbs.map oxmTree))
+    (by intro mb2 m2 hm2 tail
+        rw [hmm] at hm2; cases hm2
+        exact hw tail) hk h
+  exact ⟨mb, fbs, ibs, hwalk, hcnt, hcs⟩
+
+/-- MatchField.mk (the constructors without mask: NewInPortField, NewEthTypeField, NewIpProtoField, …) builds a known
+    field whenever (class, field) is a fixed-width row of the walker's table and the value has that width -/
+theorem fieldKnown_mk (cls field : Nat) (l : UInt8) (val : V) (hc : cls < 65535) (hf : field < 128)
+    (hw : oxmLegalWidth cls field = some l.toNat) (hnv : ¬ (cls = 1 ∧ 40 ≤ field ∧ field ≤ 103))
+    (hv : MatchPayload.lenM val = .ok (l.toUInt16, val)) : FieldKnown (MatchField.mk cls field false l val .nil) :=
+  ⟨cls, field, 0, l.toNat, val, .nil, l.toUInt16, l.toNat, rfl, hc, hf, hw, hnv, hv, by simp, Or.inl rfl, by simp, l.toNat_lt⟩
+
+/-- MatchField.mkMasked with a mask (NewEthDstField(addr, mask), NewIpv4SrcField(addr, mask), NewRegMatchField…) -/
+theorem fieldKnown_mkMasked (cls field : Nat) (l : UInt8) (val m : V) (hc : cls < 65535) (hf : field < 128)
+    (hw : oxmLegalWidth cls field = some l.toNat) (hnv : ¬ (cls = 1 ∧ 40 ≤ field ∧ field ≤ 103)) (hl : l.toNat ≤ 127)
+    (hv : MatchPayload.lenM val = .ok (l.toUInt16, val)) (hm : MatchPayload.lenM m = .ok (l.toUInt16, m)) :
+    FieldKnown (MatchField.mkMasked cls field l val (some m)) := by
+  refine ⟨cls, field, 1, (l + l).toNat, val, m, l.toUInt16, l.toNat, rfl, hc, hf, hw, hnv, hv, by simp,
+    Or.inr ⟨by decide, hm⟩, ?_, (l + l).toNat_lt⟩
+  rw [UInt8.toNat_add]
+  simp only [Nat.one_ne_zero, if_false]
+  omega
+
+/-- in_port 7, eth_dst 01:02:03:04:05:06 / ff:ff:ff:00:00:00, reg0 0x11223344 / 0xffff0000 -/
+def exFields : List V := [
+  MatchField.mk 0x8000 0 false 4 (.obj "InPortField" [.num 7]) .nil,
+  MatchField.mkMasked 0x8000 3 6 (.obj "EthDstField" [.bytes [1, 2, 3, 4, 5, 6]])
+    (some (.obj "EthDstField" [.bytes [255, 255, 255, 0, 0, 0]])),
+  MatchField.mkMasked 1 0 4 (Uint32Message.new 0x11223344) (some (Uint32Message.new 0xffff0000))]
+
+theorem exFields_known : ∀ f ∈ exFields, FieldKnown f := by
+  intro f hf
+  simp only [exFields, List.mem_cons, List.mem_nil_iff, or_false] at hf
+  rcases hf with rfl | rfl | rfl
+  · exact fieldKnown_mk _ _ 4 _ (by decide) (by decide) (by decide) (by decide) rfl
+  · exact fieldKnown_mkMasked _ _ 6 _ _ (by decide) (by decide) (by decide) (by decide) (by decide) rfl rfl
+  · exact fieldKnown_mkMasked _ _ 4 _ _ (by decide) (by decide) (by decide) (by decide) (by decide) rfl rfl
+
+/-- NewMatch() + AddField × 3, then a flow-mod (NewFlowMod with transaction id 7, Match set to that match) +
+    AddInstruction × 2 -/
+def exFlowMod2 (m : V) : V := .obj "FlowMod" [.obj "Header" [.num 4, .num 14, .num 8, .num 7],
+  .num 0, .num 0, .num 0, .num Gen.openflow13.FC_ADD, .num 0, .num 0, .num 1000, .num 4294967295,
+  .num Gen.openflow13.P_ANY, .num Gen.openflow13.OFPG_ANY, .num 0, .bytes [], m, .list exInstrs]
+
+/-- `flowMod_topWalk_known` applies to what the constructors build: the match history NewMatch() + AddField(in_port) +
+    AddField(eth_dst/mask) + AddField(reg0/mask) succeeds, the flow-mod carrying it and the two instructions encodes,
+    and the top-level walker accepts the encoding -/
+example : ∃ m, exFields.foldlM (fun acc f => Match.addField acc f) Match.new = .ok m ∧
+    (FlowMod.marshalM (exFlowMod2 m)).isOk = true ∧
+    ∀ bs v2, FlowMod.marshalM (exFlowMod2 m) = .ok (bs, v2) → bs.length < 65536 → ∃ t, Spec.walk bs = .ok t := by
+  refine ⟨_, rfl, rfl, fun bs v2 h hlt => ?_⟩
+  have hw := C02.C02_match_history exFields _ rfl
+  have hmar : ∃ bss fs', mapM2 MatchField.marshalM exFields = .ok (bss, fs') ∧ bss.flatten.length = 36 := ⟨_, _, rfl, rfl⟩
+  obtain ⟨bss0, fs0, hm0, hl0⟩ := hmar
+  obtain ⟨mb, fbs, ibs, hwalk, _, _⟩ := flowMod_topWalk_known (.num 8) 7 0 0 0 Gen.openflow13.FC_ADD 0 0 1000 4294967295
+    Gen.openflow13.P_ANY Gen.openflow13.OFPG_ANY 0 (.bytes []) _ exInstrs bs v2 (by decide) hlt hw
+    (by intro fs hf f hff
+        have : fs = exFields := by
+          simp only [V.fields] at hf
+          injection hf with hf; injection hf with hf; exact hf.symm
+        subst this; exact exFields_known f hff)
+    (by intro fs bss fs' hf hmm
+        have : fs = exFields := by
+          simp only [V.fields] at hf
+          injection hf with hf; injection hf with hf; exact hf.symm
+        subst this
+        rw [hm0] at hmm; cases hmm; omega)
+    (by intro mb m' hmm
+        have e : ∃ b, Match.marshalM (.obj "Match" [.num Gen.openflow13.MatchType_OXM, V.u16 (4 + sum16 [8, 16, 12]), .list exFields])
+            = .ok (b, .obj "Match" [.num Gen.openflow13.MatchType_OXM, V.u16 (4 + sum16 [8, 16, 12]), .list exFields]) ∧ b.length = 40 :=
+          ⟨_, rfl, rfl⟩
+        obtain ⟨b, eb, el⟩ := e
+        have hmm' : Match.marshalM (.obj "Match" [.num Gen.openflow13.MatchType_OXM, V.u16 (4 + sum16 [8, 16, 12]), .list exFields])
+            = .ok (mb, m') := hmm
+        rw [eb] at hmm'; cases hmm'; omega)
+    (by intro ls is1 hm i hi
+        have e : mapM2 Instruction.lenM exInstrs = .ok ([8, 32], exInstrs) := rfl
+        rw [e] at hm; cases hm
+        simp only [exInstrs, List.mem_cons, List.mem_nil_iff, or_false] at hi
+        rcases hi with rfl | rfl
+        · exact Or.inl ⟨1, rfl⟩
+        · refine Or.inr (Or.inr (Or.inr ⟨_, _, _, _, [16, 8], _, rfl, by decide, by decide, rfl, rfl, ?_⟩))
+          intro a ha
+          simp only [List.mem_cons, List.mem_nil_iff, or_false] at ha
+          rcases ha with rfl | rfl
+          · exact ⟨actionWF_output 7, known_output 7⟩
+          · exact ⟨actionWF_group 3, known_group 3⟩) h
+  exact ⟨_, hwalk⟩
+
 end OFV.Props.C02c
